@@ -83,12 +83,27 @@ func dlqAlpha() qcheck.Alpha {
 	}
 }
 
+// restartAlpha: a restart of the process on the same SQLite file among settlements, operator transitions and clock
+// steps (the contract: a restart changes nothing; leases held by workers stay what they were).
+func restartAlpha() qcheck.Alpha {
+	return qcheck.Alpha{
+		IDs: []string{"a", "b"}, Routes: []string{"/r1"}, Targets: []string{"t1"},
+		Deq:      []qcheck.DeqSpec{{Batch: 1, TTL: 2 * sec}, {Batch: 2, TTL: 2 * sec}},
+		LeaseOps: []string{"ack", "nack", "nackd", "ext", "dead"}, MaxHandles: 2,
+		Operator: []string{"cancel", "requeue", "rqdead"},
+		Ticks:    []time.Duration{2 * sec},
+		Reopen:   true,
+	}
+}
+
 func TestCheck(t *testing.T) {
 	r := runner.Start("C02", "model_checking")
 	var jobs []job
 	for _, cfg := range configs(r) {
 		jobs = append(jobs, job{"memory", runner.Pick(r, 5, 6), cfg, "", false, 0}, job{"sqlite", runner.Pick(r, 4, 5), cfg, "", false, 0})
 	}
+	jobs = append(jobs, job{"sqlite", runner.Pick(r, 5, 6), qmodel.Config{}, "restart", false, 0},
+		job{"sqlite", runner.Pick(r, 5, 6), qmodel.Config{DeliveredMaxAge: 10 * sec, DLQMaxAge: 10 * sec, PruneInterval: sec}, "restart", false, 0})
 	// non-initial start states (parked, settled, delayed and expired-lease populations), both backends
 	for pi := range qcheck.RichPrefixes(alpha()) {
 		jobs = append(jobs, job{"memory", runner.Pick(r, 4, 5), qmodel.Config{}, "", true, pi + 1}, job{"sqlite", runner.Pick(r, 3, 4), qmodel.Config{}, "", false, pi + 1})
@@ -105,12 +120,12 @@ func TestCheck(t *testing.T) {
 		jobs = append(jobs, job{"memory", runner.Pick(r, 6, 7), cfg, "dlq", false, 0}, job{"sqlite", runner.Pick(r, 5, 6), cfg, "dlq", false, 0})
 	}
 	if runner.ReplayPath() != "" {
-		if !qcheck.HandleReplay(r, []qcheck.Spec{{Name: "c02", Alpha: alpha()}, {Name: "c02-dlq", Alpha: dlqAlpha()}}, nil) {
+		if !qcheck.HandleReplay(r, []qcheck.Spec{{Name: "c02", Alpha: alpha()}, {Name: "c02-dlq", Alpha: dlqAlpha()}, {Name: "c02-restart", Alpha: restartAlpha()}}, nil) {
 			twoHandlePart(r, t)
 		}
 		r.Finish()
 	}
-	par := 14
+	par := len(jobs) // all at once: memory jobs finish within seconds, SQLite jobs are bound by the allocator lock (~2 cores each)
 	waves := (len(jobs) + par - 1) / par
 	budget := runner.Pick(r, 150*time.Second, 13*time.Minute) / time.Duration(waves)
 	if ji, ok := runner.Job(); ok {
@@ -119,11 +134,14 @@ func TestCheck(t *testing.T) {
 		if j.focus == "dlq" {
 			al, name = dlqAlpha(), "c02-dlq"
 		}
+		if j.focus == "restart" {
+			al, name = restartAlpha(), "c02-restart"
+		}
 		var pre qcheck.Prefix
 		if j.prefix > 0 {
 			pre = qcheck.RichPrefixes(alpha())[j.prefix-1]
 		}
-		spec := qcheck.Spec{Name: name, Backend: j.backend, Prefix: pre.Ops, PrefixName: pre.Name, Cfg: j.cfg, Alpha: al, Depth: j.depth, Workers: 4, ScaleCompaction: j.scaled,
+		spec := qcheck.Spec{Name: name, Backend: j.backend, Prefix: pre.Ops, PrefixName: pre.Name, Cfg: j.cfg, Alpha: al, Depth: j.depth, Workers: 3, ScaleCompaction: j.scaled,
 			MaxTrans: runner.Pick(r, int64(3_000_000), int64(40_000_000)), Deadline: time.Now().Add(budget)}
 		res := qcheck.Run(spec)
 		for e := range res.Edges {
